@@ -149,6 +149,48 @@ fn main() {
             }
             println!("machine {:?} steps {}", t0.elapsed(), steps);
         }
+        "corpus" => {
+            // seed corpus for the coverage-guided tier of C06: rvmon corpus <dir> <n> <seed>
+            let dir = std::path::PathBuf::from(args.get(2).cloned().unwrap_or_default());
+            let n: u64 = args.get(3).and_then(|s| s.parse().ok()).unwrap_or(200);
+            let seed: u64 = args.get(4).and_then(|s| s.parse().ok()).unwrap_or(1);
+            let _ = std::fs::create_dir_all(&dir);
+            let mut written = 0;
+            for k in 0..n {
+                let mut rng = rng::Rng::derive(seed, 6_600, k);
+                let text = match k % 6 {
+                    0 => hostile::token_soup(&mut rng, 200),
+                    1 | 2 => hostile::mutate_program(&mut rng),
+                    3 => {
+                        let g = gen::generate(&mut rng, &gen::Profile::wild(), None);
+                        print::print(&g.prog, &print::Style::random(&mut rng), &mut rng).text
+                    }
+                    4 => {
+                        let g = gen::generate(&mut rng, &gen::Profile::wild_surface(), None);
+                        print::print(&g.prog, &print::Style::plain(), &mut rng).text
+                    }
+                    _ => {
+                        let s = shapes::failure_shapes(&mut rng);
+                        let i = rng.below(s.len());
+                        print::print(&s[i].prog, &print::Style::plain(), &mut rng).text
+                    }
+                };
+                // small seeds: the fuzzer's start-up merge runs every seed under AddressSanitizer
+                let mut text = text;
+                if text.len() > 1500 {
+                    let mut cut = 1500;
+                    while !text.is_char_boundary(cut) {
+                        cut -= 1;
+                    }
+                    let at = text[..cut].rfind('\n').map_or(cut, |i| i + 1);
+                    text.truncate(at);
+                }
+                if std::fs::write(dir.join(format!("seed-{k:05}")), text).is_ok() {
+                    written += 1;
+                }
+            }
+            println!("{written}");
+        }
         "worker" => {
             let path = args.get(2).cloned().unwrap_or_default();
             std::process::exit(props::c06::worker(&path));
